@@ -204,6 +204,16 @@ func init() {
 	reg(hpkg+"verifWaitGroupCount", func(m *Machine, _ *frame, _ token.Pos, _ *ssa.Function, a []Value) Value {
 		return m.bv64(m.wg(a[0].(*Value)).n)
 	})
+	reg(hpkg+"verifWire", func(m *Machine, _ *frame, _ token.Pos, _ *ssa.Function, a []Value) Value {
+		s := a[0].(*Seq)
+		if s.Nil {
+			return m.concSeq(nil)
+		}
+		return s
+	})
+	reg(hpkg+"verifNative", func(m *Machine, _ *frame, _ token.Pos, _ *ssa.Function, a []Value) Value {
+		return m.C.False()
+	})
 	reg(hpkg+"verifMsg", func(m *Machine, _ *frame, _ token.Pos, fn *ssa.Function, a []Value) Value {
 		// a proto message whose serialised form is the given bytes (see proto.Marshal)
 		t := fn.Signature.Results().At(0).Type()
